@@ -1,7 +1,8 @@
 /-
   C20, part B: `wspbus.Bus.block()` / `wait()` on the main thread against `stop / start / graceful /
-  exit / restart` called from a second thread.  Core Lean only; one model step = one traced source
-  line (see `CpModel/Monitor.lean` for the convention).
+  exit / restart` called from a second thread.  Core Lean only; one model step = one source line at
+  the time of writing; the tie to the live code is trace inclusion modulo stuttering over `obsStr`
+  (see `CpModel/Monitor.lean` for the convention).
 
   Modelled: the bus `state`, the `execv` flag, the polling loop of `wait`
   (`w4: while self.state not in states` / `w5: time.sleep` / `w6: self.publish('main')`), the
